@@ -382,6 +382,9 @@ func cmdC13(tier string, seed int64, out, statsOut, replay string) {
 		// an override block that spells a list out as EMPTY: an empty value replaces nothing, neither that list nor any other
 		"name: x\narch: amd64\nversion: 1.0.0\ndepends: [base-dep]\nreplaces: [old]\nconflicts: [c1]\nprovides: [p1]\ncontents:\n  - {src: a, dst: /a}\ndeb:\n  breaks: [b1]\n  triggers:\n    interest: [t1]\noverrides:\n  deb:\n    depends: []\n  rpm:\n    conflicts: []\n    replaces: [newer]\n  apk:\n    provides: []\n    suggests: []\n  ipk:\n    contents: []\n    recommends: [r]\n  archlinux:\n    replaces: []\n    conflicts: []\n    depends: []\n",
 		"name: x\narch: amd64\nversion: 1.0.0\ndepends: [base-dep]\ndeb:\n  breaks: [b1]\n  predepends: [pd]\nipk:\n  tags: [t]\n  predepends: [ipd]\noverrides:\n  deb:\n    deb:\n      breaks: []\n    recommends: []\n  ipk:\n    ipk:\n      tags: []\n    depends: []\n",
+		// an override block whose contents list names only entries addressed to OTHER formats: the list still replaces the
+		// base's (wholesale), and what is left of it for this format is nothing
+		"name: x\narch: amd64\nversion: 1.0.0\ncontents:\n  - {src: a, dst: /etc/foo/base.conf}\n  - {src: b, dst: /usr/bin/base}\noverrides:\n  deb:\n    contents:\n      - {src: c, dst: /opt/only-for-rpm, packager: rpm}\n  apk:\n    contents:\n      - {src: c, dst: /opt/for-rpm, packager: rpm}\n      - {src: d, dst: /opt/for-ipk, packager: ipk}\n  rpm:\n    contents:\n      - {src: e, dst: /opt/for-deb, packager: deb}\n      - {src: f, dst: /opt/for-all}\n",
 		// custom-field maps that are present but EMPTY in the base, filled by override blocks: each format sees its own block only,
 		// in whatever order the formats are asked for
 		"name: x\narch: amd64\nversion: 1.0.0\ndeb:\n  fields: {}\nipk:\n  fields: {}\noverrides:\n  deb:\n    deb:\n      fields: {X-Deb: over}\n  rpm:\n    depends: [r]\n    deb:\n      fields: {X-From-Rpm-Block: leak}\n  ipk:\n    ipk:\n      fields: {X-Ipk: over}\n  apk:\n    ipk:\n      fields: {X-From-Apk-Block: leak}\n",
